@@ -615,30 +615,33 @@ async fn serve_ssh(case: Value, key: russh_keys::key::KeyPair) -> SocketAddr {
     let listener = TcpListener::bind(("127.0.0.1", 0)).await.unwrap();
     let addr = listener.local_addr().unwrap();
     drop(tokio::spawn(async move {
-        let Ok((mut socket, _)) = listener.accept().await else { return };
-        let _ = socket.set_nodelay(true);
-        match case["hello_close"].as_str().unwrap_or("none") {
-            "ssh-accept" => {
-                drop(socket);
-                return;
+        // (a server in one of the states before the SSH handshake treats every new connection the same way)
+        let socket = loop {
+            let Ok((mut socket, _)) = listener.accept().await else { return };
+            let _ = socket.set_nodelay(true);
+            match case["hello_close"].as_str().unwrap_or("none") {
+                "ssh-accept" => {
+                    drop(socket);
+                    continue;
+                }
+                "ssh-banner" => {
+                    // identification string, then the peer is gone
+                    let _ = socket.write_all(b"SSH-2.0-fake_1.0\r\n").await;
+                    let _ = socket.flush().await;
+                    tokio::time::sleep(Duration::from_millis(PAUSE_MS)).await;
+                    drop(socket);
+                    continue;
+                }
+                "ssh-garbage" => {
+                    let _ = socket.write_all(b"HTTP/1.1 400 Bad Request\r\n\r\n").await;
+                    let _ = socket.flush().await;
+                    tokio::time::sleep(Duration::from_millis(PAUSE_MS)).await;
+                    drop(socket);
+                    continue;
+                }
+                _ => break socket,
             }
-            "ssh-banner" => {
-                // identification string, then the peer is gone
-                let _ = socket.write_all(b"SSH-2.0-fake_1.0\r\n").await;
-                let _ = socket.flush().await;
-                tokio::time::sleep(Duration::from_millis(PAUSE_MS)).await;
-                drop(socket);
-                return;
-            }
-            "ssh-garbage" => {
-                let _ = socket.write_all(b"HTTP/1.1 400 Bad Request\r\n\r\n").await;
-                let _ = socket.flush().await;
-                tokio::time::sleep(Duration::from_millis(PAUSE_MS)).await;
-                drop(socket);
-                return;
-            }
-            _ => {}
-        }
+        };
         let (ktx, krx) = tokio::sync::oneshot::channel();
         let conn = SshConn { case, tx: None, kill: Some(ktx) };
         // a second descriptor for the socket, so that the connection can be cut underneath russh
